@@ -145,7 +145,7 @@ OnConnClosed(x, e) ==
               IF s.out = "closed" /\ s.in = "validating" THEN SetSt(x2, e, [k |-> "vp", c |-> "closed"])
               ELSE IF s.out # "closed" THEN Rep(x2, e, "openfail")
               ELSE x2
-         [] s.k = "vp" -> SetSt(x2, e, [k |-> "vp", c |-> "closed"])
+         [] s.k = "vp" -> SetSt(x2, e, IF Mut = "vp_keeps_conn_state" THEN s ELSE [k |-> "vp", c |-> "closed"])
          [] OTHER -> x2
 
 \* on_outbound_substream
